@@ -20,7 +20,7 @@ import write_indel_files as wif            # /repo/sv is on sys.path (runner)
 from src.diagnostic.benchmark_alignment import BenchmarkAlignedPair, BenchmarkAlignmentPosition
 
 TYPES = ["insertion", "deletion"]
-QUERY_IDS = [213, 13, 3, 21, 1]      # distinct ids whose decimal texts contain one another (a text-based membership test must not lose one)
+QUERY_IDS = [213, 13, 3, 21, 1, 31, 2]      # distinct ids whose decimal texts contain one another (a text-based membership test must not lose one)
 
 
 def make_calls(E, n, cfg):
@@ -88,7 +88,7 @@ def body_cluster(E, cfg):
 
 def configs_cluster(tier):
     cfgs = [{"n": 0, "types": []}, {"n": 1, "types": [0]}]
-    top = 3 if tier == "quick" else 4
+    top = 3 if tier == "quick" else 5
     for n in range(2, top + 1):
         cfgs.append({"n": n, "types": [0] * n})
         cfgs.append({"n": n, "types": [1] * n})
@@ -152,6 +152,8 @@ def body_write(E, cfg):
 def configs_write(tier):
     cfgs = [{"n": 0, "types": []}, {"n": 1, "types": [1]}, {"n": 2, "types": [0, 0]}, {"n": 2, "types": [1, 0]}]
     cfgs += [{"n": 3, "types": [0, 0, 0]}, {"n": 3, "types": [1, 0, 1]}]
+    if tier != "quick":
+        cfgs += [{"n": 4, "types": [0, 0, 0, 0]}, {"n": 4, "types": [1, 0, 0, 1]}]
     return cfgs
 
 
@@ -212,6 +214,7 @@ def configs_breakage(which):
             cfgs.append({"which": which, "KR": 3, "KQ": 3, "npairs": 2, "rev": rev})
             if tier != "quick":
                 cfgs.append({"which": which, "KR": 4, "KQ": 4, "npairs": 3, "rev": rev})
+                cfgs.append({"which": which, "KR": 5, "KQ": 5, "npairs": 4, "rev": rev})
         return cfgs
     return f
 
